@@ -11,6 +11,7 @@ import (
 	"fmt"
 	"os"
 	goruntime "runtime"
+	"slices"
 	"sort"
 	"sync"
 	"sync/atomic"
@@ -701,6 +702,110 @@ func runBehaviour(t *testing.T, tr *vh.Trace, tid string, beh Beh, variant int) 
 			return out
 		}
 
+		// teardown-bound contexts obtained through the cached state (C15): each is bound to the incarnation that exists when it is
+		// handed out and must be cancelled exactly when that resource is torn down, removed or absent
+		type cctx struct {
+			n   int
+			k   string
+			id  int
+			ctx context.Context
+		}
+
+		var (
+			cctxMu sync.Mutex
+			cctxs  []*cctx
+			cctxN  int
+			ctxReq = make(chan [3]int, 16)
+		)
+
+		hasCtx := func(k string, id int) bool {
+			cctxMu.Lock()
+			defer cctxMu.Unlock()
+
+			for _, c := range cctxs {
+				if c.k == k && c.id == id && c.ctx.Err() == nil {
+					return true
+				}
+			}
+
+			return false
+		}
+
+		obtainCtx := func(k string, id int) {
+			// only while the cache knows the very incarnation that is in the store (cached reads may lag: a context handed out for
+			// a resource the cache has not seen yet is cancelled at once, one for an incarnation the store no longer has is
+			// cancelled as soon as the cache catches up - both correct, but not what the judge computes from the write log)
+			ptr := key(k, id).Pointer()
+
+			rctx, rcancel := context.WithTimeout(ctx, time.Millisecond)
+			cres, cerr := cachedState.Get(rctx, ptr)
+			rcancel()
+
+			bres, berr := base.Get(ctx, ptr)
+			if cerr != nil || berr != nil || !cres.Metadata().Created().Equal(bres.Metadata().Created()) ||
+				cres.Metadata().Phase() != resource.PhaseRunning || bres.Metadata().Phase() != resource.PhaseRunning {
+				return
+			}
+
+			cctxMu.Lock()
+			cctxN++
+			n := cctxN
+			cctxMu.Unlock()
+
+			if n > 8 {
+				return
+			}
+
+			select {
+			case ctxReq <- [3]int{n, map[string]int{"K1": 1, "K2": 2}[k], id}:
+			default:
+			}
+		}
+
+		// the contexts are handed out by the runtime to a controller (controller.Reader.ContextWithTeardown: the path through the
+		// read cache for cached kinds); this extra controller only serves those requests, it is not part of the judged
+		// configuration (no cfg line, no reconcile lines)
+		if len(beh.Cached) > 0 {
+			var ctxIns []controller.Input
+			for _, k := range beh.Cached {
+				ctxIns = append(ctxIns, rt.KindInput(ns, typeOf[k], controller.InputWeak))
+			}
+
+			if rerr := rtm.RegisterController(&rt.Probe{NameV: "zz-ctx-probe", InputsV: ctxIns, RunF: func(pctx context.Context, crt controller.Runtime) error {
+				for {
+					select {
+					case <-pctx.Done():
+						return nil
+					case <-crt.EventCh():
+					case rq := <-ctxReq:
+						k := map[int]string{1: "K1", 2: "K2"}[rq[1]]
+
+						// blocks until the cache of the kind is bootstrapped
+						tctx, cerr := crt.ContextWithTeardown(pctx, key(k, rq[2]).Pointer())
+						if cerr != nil || pctx.Err() != nil {
+							continue
+						}
+
+						cctxMu.Lock()
+						cctxs = append(cctxs, &cctx{n: rq[0], k: k, id: rq[2], ctx: tctx})
+						r.emit(Line{Ev: "cctx", N: rq[0], K: k, ID: rq[2]})
+						cctxMu.Unlock()
+					}
+				}
+			}}); rerr != nil {
+				t.Fatal(rerr)
+			}
+		}
+
+		reportCtxs := func() {
+			cctxMu.Lock()
+			defer cctxMu.Unlock()
+
+			for _, c := range cctxs {
+				r.emit(Line{Ev: "cctxstate", N: c.n, K: c.k, ID: c.id, Err: c.ctx.Err() != nil})
+			}
+		}
+
 		stopped := false
 
 		finishRun := func() {
@@ -765,6 +870,16 @@ func runBehaviour(t *testing.T, tr *vh.Trace, tid string, beh Beh, variant int) 
 			switch c.C {
 			case "write":
 				r.write(ctx, base, c)
+
+				// a cached resource that is destroyed is, every other time, re-created at once: removal and re-creation reach the
+				// runtime in ONE batch whenever batches are being held (a teardown-bound context of the old incarnation has to be
+				// cancelled all the same)
+				if c.How == "destroy" && slices.Contains(beh.Cached, c.K) && (ci%2 == 0 || hasCtx(c.K, c.ID)) {
+					rc := c
+					rc.How = "create"
+					r.write(ctx, base, rc)
+				}
+
 			case "flush":
 				ip.flush(c.K)
 			case "step":
@@ -794,6 +909,13 @@ func runBehaviour(t *testing.T, tr *vh.Trace, tid string, beh Beh, variant int) 
 
 			synctest.Wait()
 			cachedReads(1)
+
+			// now and then a teardown-bound context for a cached resource the cache is up to date about
+			for _, k := range beh.Cached {
+				obtainCtx(k, r.ids[ci%len(r.ids)])
+			}
+
+			synctest.Wait()
 		}
 
 		// late controllers that were never started are started now
@@ -837,6 +959,7 @@ func runBehaviour(t *testing.T, tr *vh.Trace, tid string, beh Beh, variant int) 
 			}
 		}
 
+		reportCtxs()
 		r.emit(Line{Ev: "quiet", Cached: cachedReads(3)})
 
 		_ = stopped
